@@ -9,7 +9,7 @@ Definition E_leaver : senv :=
   {| eid := 0; nag := 2; lens := [3]; mode := MTerm; leave := [Some 1; None]; kind := KVector; unaligned := false |}.
 Definition E_trunc : senv :=
   {| eid := 0; nag := 2; lens := [1]; mode := MTrunc; leave := [None; None]; kind := KVector; unaligned := false |}.
-Definition started (E : senv) : sstate := fst (env_reset E init_state None).
+Definition started (E : senv) : sstate := fst (env_reset E init_state no_rarg).
 
 (* the pinned worker returned the terminal observation, not the first one of the new episode *)
 Lemma autoreset_obs_refuted_lemma :
